@@ -112,8 +112,7 @@ Proof.
   intros l s' St. inversion St; subst; simpl;
     try (exfalso; eapply HX; eassumption);
     try (split; [reflexivity|]; unfold upd; destruct (Nat.eqb_spec t t0); subst; auto; congruence).
-  - split; [reflexivity|]. left. assumption.
-  - split; [reflexivity|]. left. destruct (wake_all_cases Z (wg_prog p) c (thr s) t) as [E|(E & _)]; congruence.
+  split; [reflexivity|]. left. destruct (wake_all_cases Z (wg_prog p) c (thr s) t) as [E|(E & _)]; congruence.
 Qed.
 
 (* ---- C14: the counter is the sum of the completed, non-panicking Adds (over schedules) *)
